@@ -402,4 +402,28 @@ def _c16(tier):
     return c16(tier, repo=os.environ.get("VERIF_REPO"))
 
 
+def _replay_one(prop, path):
+    """bin/check <prop> --replay <file>: re-run the recorded case on the current tree and let TLC judge the fresh observation."""
+    rep = json.load(open(path))
+    case = rep["case"]["case"]
+    if prop == "C10":
+        lines, _, _ = cb.cb_replay([case], repo=os.environ.get("VERIF_REPO"))
+        res = cb.validate("CbObs", lines, nproc=1)
+        classify = c10_classify
+    else:
+        lines, _, _ = cb.opt_replay([case], repo=os.environ.get("VERIF_REPO"))
+        res = cb.validate("OptObs", lines, nproc=1)
+        classify = c16_classify
+    for ln in lines:
+        log("  " + ln[:300])
+    verdict = vlib.Verdict(prop)
+    for b in res["bad"]:
+        verdict.violation(classify(case, b[2]), {"case": case, "observations": lines}, b[2])
+        log("  rejected by the trace spec: %s (signature %s)" % (b[2], classify(case, b[2])))
+    code, n_new, n_known = verdict.finish()
+    log("[%s] replay of %s: %s" % (prop, os.path.basename(path), "VIOLATION reproduced" if code else ("known finding reproduced" if n_known else "not rejected on this tree")))
+    return code
+
+
 CHECKS = {"C10": _c10, "C16": _c16}
+REPLAY = {"C10": lambda p: _replay_one("C10", p), "C16": lambda p: _replay_one("C16", p)}
